@@ -509,7 +509,7 @@ func checkC18(c *Ctx) {
 				}
 			}
 			sort.Strings(why)
-			r.Ob("REG-CONSUME", fmt.Sprintf("%s reads the register (%s #%d)", relName(f), call.Call.StaticCallee().Name(), ordinalCall(f, call)), t.Pos(call.Pos()), okc,
+			r.Ob("REG-CONSUME", fmt.Sprintf("%s reads the register (%s #%d)", relName(f), fnName(call.Call.StaticCallee()), ordinalCall(f, call)), t.Pos(call.Pos()), okc,
 				fmt.Sprintf("possible last writers: %s. %s", st, strings.Join(uniqStrings(why), "; ")))
 		})
 	}
@@ -768,7 +768,7 @@ func c18Diff(c *Ctx, ra *regAnalysis, runExpr *ssa.Function, s2k map[string]int6
 		if !ok || call.Call.StaticCallee() == nil {
 			return
 		}
-		switch call.Call.StaticCallee().Name() {
+		switch fnName(call.Call.StaticCallee()) {
 		case "RunExpr":
 			if strings.Contains(path(call.Call.Args[1]), ".RHS") {
 				rhsEvals = append(rhsEvals, call)
@@ -782,7 +782,7 @@ func c18Diff(c *Ctx, ra *regAnalysis, runExpr *ssa.Function, s2k map[string]int6
 				n := 0
 				allInstrs(h, func(i2 ssa.Instruction) {
 					if c2, ok := i2.(*ssa.Call); ok && c2.Call.StaticCallee() != nil {
-						if nm := c2.Call.StaticCallee().Name(); nm == "SetVarb" || nm == "changeListOrMapValue" {
+						if nm := fnName(c2.Call.StaticCallee()); nm == "SetVarb" || nm == "changeListOrMapValue" {
 							n++
 						}
 					}
